@@ -205,8 +205,14 @@ def c08(tier, hook=None):
         for (n, kind) in ((2, "tuple"), (3, "named")):
             guises.append((n, kind, "attr" if kind == "tuple" else "derive", False, None, None, "Tc", rp))
     guises.append((2, "named", "attr", False, None, None, "Tc", None))
+    # named fields declared in non-alphabetical order; Default co-derived with an explicit value on the first field
+    for (n, nm) in ((2, "rev"), (3, "rev"), (4, "mixed"), (3, "mixed")):
+        guises.append((n, "named", "attr" if n % 2 else "derive", False, None, None, "Tm", None, nm, False))
+    for (n, kind) in ((1, "tuple"), (2, "named"), (3, "tuple")):
+        guises.append((n, kind, "attr" if n % 2 else "derive", False, None, None, "Tm", None, None, True))
     mods = [(i, rf.ops_module(i, g[0], g[1], g[2], generic=g[3], bounds=g[4], selfbound=(g[5] if len(g) > 5 else None),
-                              leaf=(g[6] if len(g) > 6 else "Tm"), repr_=(g[7] if len(g) > 7 else None))) for i, g in enumerate(guises)]
+                              leaf=(g[6] if len(g) > 6 else "Tm"), repr_=(g[7] if len(g) > 7 else None),
+                              names=(g[8] if len(g) > 8 else None), with_default=(g[9] if len(g) > 9 else False))) for i, g in enumerate(guises)]
     mods = T(mods)
     res, failed = run_modules(mods, "c08")
     events, meta = [], []
@@ -287,6 +293,22 @@ def c09(tier, hook=None):
                     mods.append((idx, src))
                     descs.append(d)
                     reqs.append({"k": "expand", "id": idx, "entry": "attr", "attr": req["attr"], "item": req["item"]})
+                    # the requested traits listed the other way round (`OpAssign, Op`)
+                    if c["want_bin"] and c["want_assign"] and generic is None:
+                        idx = len(mods)
+                        src, req, d = rf.implop_module(idx, op, (c["bl"], c["br"]), rhs_self, True, True, c["base_is_assign"], assign_first=True)
+                        d["assign_first"] = True
+                        mods.append((idx, src))
+                        descs.append(d)
+                        reqs.append({"k": "expand", "id": idx, "entry": "attr", "attr": req["attr"], "item": req["item"]})
+                    # `Self` inside a projection in Output / where-clause
+                    if not c["base_is_assign"] and generic is None and c["bl"] == "v":
+                        idx = len(mods)
+                        src, req, d = rf.implop_module(idx, op, (c["bl"], c["br"]), rhs_self, c["want_bin"], c["want_assign"], False, proj=True)
+                        d["proj"] = True
+                        mods.append((idx, src))
+                        descs.append(d)
+                        reqs.append({"k": "expand", "id": idx, "entry": "attr", "attr": req["attr"], "item": req["item"]})
                     # the same impl with its right operand spelled `Self` / `&Self` (where the self type allows it)
                     self_is_ref = c["bl"] == "r" and not c["base_is_assign"]
                     if rhs_self and generic is None and not (self_is_ref and c["br"] == "v"):
@@ -414,6 +436,7 @@ def debug_descs(tier, rnd):
     ks["variants"][0]["fields"][0]["name"] = "while"
     ks["variants"][0]["fields"][1]["name"] = "r"
     descs.append(ks)
+    descs.append({"kind": "enum", "variants": [{"name": "type", "shape": "unit", "fields": []}, {"name": "match", "shape": "unit", "fields": []}, {"name": "Plain", "shape": "unit", "fields": []}]})
     # field-less enums (std prints the bare name)
     descs.append({"kind": "enum", "variants": [{"name": "Red", "shape": "unit", "fields": []}, {"name": "Green", "shape": "unit", "fields": []}]})
     return descs
@@ -436,6 +459,16 @@ def c10(tier, hook=None):
             idx = len(mods)
             mods.append((idx, rf.debug_module(idx, d, entry, rnd)))
             meta.append((d, entry))
+    # explicit bound(...) arguments (the types are concrete, so they cannot matter): the output must not change
+    brnd = random.Random(dx.seed() + 9)
+    for k, d in enumerate(descs):
+        if d.get("generic") or (tier == "quick" and k % 3):
+            continue
+        b = ["this_empty", "shared_empty", "field_helper", "this_dd"][k % 4]
+        idx = len(mods)
+        entry = brnd.choice(["attr", "derive"])
+        mods.append((idx, rf.debug_module(idx, d, entry, rnd, bounds=b)))
+        meta.append((d, entry))
     mods = T(mods)
     res, failed = run_modules(mods, "c10")
     events, emeta = [], []
@@ -488,7 +521,7 @@ def c10(tier, hook=None):
 # C11
 # ------------------------------------------------------------------------------------------------
 def default_descs(tier, rnd):
-    kinds = ["none", "str", "path", "assoc_path", "into_path", "call", "block", "method", "int", "neg"]
+    kinds = ["none", "str", "path", "assoc_path", "into_path", "call", "block", "method", "int", "neg", "bytes"]
     out = []
 
     def flds(n, choice=None):
@@ -518,6 +551,12 @@ def default_descs(tier, rnd):
                         # a value written on a variant's #[default(..)] is itself a #[default] marker
                         vs.append({"shape": shape, "dmark": marks[vi] or vvpos == vi, "vv": "call" if vvpos == vi else "none", "fields": flds(n)})
                     out.append({"kind": "enum", "tv": tv, "variants": vs})
+    # the default variant written `B()` / `A {}` (no fields, but not a unit variant); also as the only variant
+    for shape in ("tuple", "named"):
+        out.append({"kind": "enum", "tv": "none", "variants": [{"shape": "unit", "dmark": False, "vv": "none", "fields": []},
+                                                                {"shape": shape, "dmark": True, "vv": "none", "fields": []}]})
+        out.append({"kind": "enum", "tv": "none", "variants": [{"shape": shape, "dmark": False, "vv": "none", "fields": []}]})
+        out.append({"kind": "struct", "tv": "none", "variants": [{"shape": shape, "dmark": False, "vv": "none", "fields": []}]})
     return out
 
 
@@ -618,6 +657,11 @@ def c18(tier, hook=None):
                 for entry in ("attr", "derive"):
                     cases.append((named, 0, True, entry, where, bounds))
                     mods.append((len(cases) - 1, rf.deref_module(len(cases) - 1, named, 0, True, entry, where, bounds)))
+    # the struct produced by a macro_rules! macro, the field type handed in as an `ident` / `tt` fragment (real spans and hygiene)
+    for frag in ("ident", "tt"):
+        for entry in ("attr", "derive"):
+            cases.append(("via_macro_rules", frag, entry))
+            mods.append((len(cases) - 1, rf.deref_macro_module(len(cases) - 1, frag, entry)))
     # generic single-field structs whose field type mentions `Self`
     for entry in ("attr", "derive"):
         cases.append(("self_in_field_type", entry))
@@ -677,6 +721,20 @@ def c18(tier, hook=None):
         events.append({"ev": "deref", "nfields": nf, "rejected": rejected if (rejected or accepted) else (nf == 1),
                        "same_address": True, "target_is_field_type": True, "mut_same_address": True, "write_lands": True})
         emeta.append({"case": (nf, traits, item), "idx": None})
+    # DerefMut derived next to a HAND-WRITTEN Deref whose Target is not the field type: the derived impl must name the field type
+    # (and is therefore refused by rustc), it must not follow whatever Target says
+    pinned = []
+    for fty, tgt, body in (("::std::boxed::Box<u8>", "u8", "&self.0"), ("::std::string::String", "str", "&self.0"), ("::std::vec::Vec<u8>", "[u8]", "&self.0")):
+        for entry in ("attr", "derive"):
+            head = "#[::derive_ex::derive_ex(DerefMut)]" if entry == "attr" else "#[derive(::derive_ex::Ex)] #[derive_ex(DerefMut)]"
+            pinned.append("#![allow(dead_code)]\n%s pub struct X(pub %s);\nimpl ::core::ops::Deref for X { type Target = %s; fn deref(&self) -> &%s { %s } }\n" % (head, fty, tgt, tgt, body))
+    wdp = os.path.join(dx.WORK, "c18p-%d" % os.getpid())
+    for k, src in enumerate(pinned):
+        ok, diags = dx.check_only("p%d" % k, src, wdp)
+        events.append({"ev": "deref_pinned", "rustc_ok": bool(ok)})
+        emeta.append({"case": ("deref_pinned", src), "idx": None, "diags": dx.diag_summary(diags)[:2]})
+    import shutil
+    shutil.rmtree(wdp, ignore_errors=True)
     n, bad, jst = dx.tlc_judge("Trace_Run", "Trace_Run.cfg", events, "c18")
     ck.add_judge(n, jst)
     for i in bad:
